@@ -8,6 +8,7 @@ from typing import Union, Any, Dict, List, Optional
 # Proto-definitions
 import vlsir
 import vlsir.circuit_pb2 as vckt
+from vlsirtools import SpiceType
 
 # HDL
 from ..prefix import Prefix, Prefixed
@@ -87,6 +88,7 @@ class ProtoImporter:
             desc=pmod.desc,
             port_list=port_list,
             paramtype=dict,  # FIXME: should these be stored in the serialization schema?
+            spicetype=SpiceType.from_schema(pmod.spicetype),
         )
         # Give it a (non-initializer) value for its `importpath`
         emod._importpath = [pmod.name.domain]
@@ -393,13 +395,14 @@ def import_primitive_params(
 
     if target is Vpulse:
         return dict(
-            v1=params["v1"],
-            v2=params["v2"],
-            delay=params["td"],
-            rise=params["tr"],
-            fall=params["tf"],
-            width=params["tpw"],
-            period=params["tper"],
+            # Parameters left unset are not exported; they come back as `None`
+            v1=params.get("v1", None),
+            v2=params.get("v2", None),
+            delay=params.get("td", None),
+            rise=params.get("tr", None),
+            fall=params.get("tf", None),
+            width=params.get("tpw", None),
+            period=params.get("tper", None),
         )
 
     return params
